@@ -3,4 +3,81 @@ import FinamModel.Mask
 /-! Lemmas about the mask model of `Mask.lean`. -/
 namespace Finam
 
+/-- a leading axis of length one does not change the flat position (either order) -/
+theorem ravel_cons_zero (o : Order) (sh i : List Nat) (h : i.length = sh.length) :
+    ravel o (1 :: sh) (0 :: i) = ravel o sh i := by
+  cases o with
+  | C => simp [ravel, ravelC]
+  | F => simp only [ravel, List.reverse_cons]; exact ravelC_pad_one _ _ (by simp [h])
+
+theorem unravel_singleton (o : Order) (n k : Nat) : unravel o [n] k = [k] := by
+  cases o <;> simp [unravel, unravelC, prod]
+
+theorem ravel_singleton (o : Order) (n k : Nat) : ravel o [n] [k] = k := by
+  cases o <;> simp [ravel, ravelC, prod]
+
+/-- two arrays of one shape have the same C-order element list iff they agree on every index -/
+theorem toList_eq_iff {α} (a b : Arr α) (h : a.shape = b.shape) :
+    a.toList = b.toList ↔ ∀ i, InB a.shape i → a.get i = b.get i := by
+  unfold Arr.toList Arr.flat
+  rw [← h]
+  constructor
+  · intro hl i hi
+    have hk := ravel_lt .C _ _ hi
+    have := congrArg (fun l => l[ravel .C a.shape i]?) hl
+    simp only [List.getElem?_map, List.getElem?_range hk, Option.map_some, Option.some.injEq] at this
+    rwa [unravel_ravel .C _ _ hi] at this
+  · intro hall
+    apply List.map_congr_left
+    intro k hk
+    simp only [List.mem_range] at hk
+    exact hall _ (unravel_inB .C _ _ hk)
+
+theorem allFalse_iff (l : List Bool) : allFalse l = true ↔ ∀ b ∈ l, b = false := by
+  simp [allFalse]
+
+/-! ### the steps of `prepare` on the three payload forms -/
+
+theorem checkInputShape_shaped (gshape : List Nat) (o : Order) (y : Payload) (hy : y.data.shape = gshape)
+    (hl : gshape.length ≠ 1) (hne : gshape ≠ []) :
+    checkInputShape gshape o y = .ok { y with data := y.data.expandDims0,
+                                               dmask := y.dmask.map (fun dm => dm.map Arr.expandDims0) } := by
+  obtain ⟨s0, rest, rfl⟩ := List.exists_cons_of_ne_nil hne
+  unfold checkInputShape
+  have c1 : (y.data.ndim == (s0 :: rest).length + 1) = false := by simp [Arr.ndim, hy]
+  simp only [c1, Bool.false_eq_true, if_false]
+  rw [if_neg (by simp [Arr.size, hy]), if_pos (by simpa [Arr.ndim, hy] using hl),
+    if_pos (by
+      simp only [hy, List.tail_cons, bne_iff_ne, ne_eq]
+      intro h; have := congrArg List.length h; simp at this),
+    if_pos (by simp [hy])]
+
+theorem checkInputShape_time (gshape : List Nat) (o : Order) (y : Payload) (hy : y.data.shape = 1 :: gshape)
+    (hne : gshape ≠ []) : checkInputShape gshape o y = .ok y := by
+  have hlen : gshape.length ≠ 0 := by simpa using hne
+  unfold checkInputShape
+  have c1 : (y.data.ndim == gshape.length + 1) = true := by simp [Arr.ndim, hy]
+  simp only [c1, if_true]
+  have c2 : (y.data.ndim != 1) = true := by
+    simp only [Arr.ndim, hy, List.length_cons, bne_iff_ne, ne_eq]; omega
+  rw [if_neg (by simp [Arr.size, hy, prod]), if_pos c2, if_neg (by simp [hy])]
+
+theorem checkInputShape_flat (gshape : List Nat) (o : Order) (y : Payload) (hy : y.data.shape = [prod gshape])
+    (hne : gshape ≠ []) :
+    checkInputShape gshape o y =
+      .ok { y with data := y.data.reshape o (1 :: gshape),
+                   dmask := y.dmask.map (fun dm => dm.map (Arr.reshape o (1 :: gshape))) } := by
+  have hlen : gshape.length ≠ 0 := by simpa using hne
+  unfold checkInputShape
+  have c1 : (y.data.ndim == gshape.length + 1) = false := by
+    simp only [Arr.ndim, hy, List.length_cons, List.length_nil, beq_eq_false_iff_ne, ne_eq]; omega
+  simp only [c1, Bool.false_eq_true, if_false]
+  rw [if_neg (by simp [Arr.size, hy, prod]), if_neg (by simp [Arr.ndim, hy])]
+
+theorem prepAttach_plain (infoMask mask : MaskSpec) (x : Payload) (hs : infoMask.specified = true)
+    (hp : x.dmask = none) (m : Arr Bool) (hm : attachMask x.data.shape mask = .ok m) :
+    prepAttach infoMask mask x = .ok { x with dmask := some (some m) } := by
+  simp [prepAttach, hs, hp, hm]
+
+
 end Finam
